@@ -32,7 +32,7 @@ def gen_cases(ctx, return_logprobs=False, n_cases=None):
     cases = []
     for k in range(n_cases):
         n = int(rng.choice([10, 25, 60, 150, 400, 600], p=[.15, .25, .25, .2, .1, .05]))
-        kind = ["narrow", "wide", "ties", "flat", "spike", "ninf", "nan", "allnan"][int(rng.choice(8, p=[.3, .2, .1, .1, .1, .1, .05, .05]))]
+        kind = ["narrow", "wide", "ties", "flat", "spike", "ninf", "nan", "allnan", "deep", "high"][int(rng.choice(10, p=[.25, .15, .1, .1, .1, .1, .05, .05, .05, .05]))]
         if return_logprobs and kind in ("nan", "allnan"):
             kind = "narrow"
         n_req = int(rng.choice([1, 2, 3, 5, 8, 16, 64]))
